@@ -162,7 +162,7 @@ func image(y int) (map[md]bool, error) {
 
 var lunarCtor = ev.Register(&ev.P[lunarYearCase]{
 	Name: "lunar_constructor_acceptance",
-	Rule: "for each lunar year (hot years + generated in quick; every year 1..9998 in thorough) the whole box month -13..14 x day -1..32 (1 288 tuples); oracle: NewLunar/NewLunarFromYmd/NewLunarTime/NewTao(y+2697)/NewFoto(y+544) succeed <=> (month, day) is in the image of Solar.GetLunar() over the civil days of Y-1-11-01..Y+1-03-31 reporting lunar year Y (forward path, independent of NewLunar's own checks); a negative month is accepted only where that leap month is in the image; an accepted object reports the numbers given; invalid hour/minute/second are rejected; non-trivial (counted per year): the year has a leap month, is in a reform era, or is an override-list neighbour; distinct = year",
+	Rule: "for each lunar year (hot years + generated in quick; every year 1..9998 in thorough) the whole box month -13..14 x day -1..32 (1 288 tuples); oracle: NewLunar/NewLunarFromYmd/NewLunarTime/NewTao(y+2697)/NewFoto(y+544) succeed <=> (month, day) is in the image of Solar.GetLunar() over the civil days of Y-1-11-01..Y+1-03-31 reporting lunar year Y (forward path, independent of NewLunar's own checks); a negative month is accepted only where that leap month is in the image; an accepted object reports the numbers given; half of the tuples are asked right after a civil conversion in the same year (before/after lunar New Year, year end), which must not change acceptance; invalid hour/minute/second are rejected; non-trivial (counted per year): the year has a leap month, is in a reform era, or is an override-list neighbour; distinct = year",
 	Check: func(c lunarYearCase) error {
 		y := c.Y
 		img, err := image(y)
@@ -177,6 +177,12 @@ var lunarCtor = ev.Register(&ev.P[lunarYearCase]{
 			for d := -1; d <= 32; d++ {
 				want := img[md{m, d}]
 				var l *calendar.Lunar
+				// acceptance may not depend on what was converted just before: half of the tuples are preceded by a civil
+				// conversion in the same year's table (a day before lunar New Year, one after, the year's last days)
+				if (m+d)%2 == 0 && y >= 2 && y <= 9997 {
+					pm, pd := [][2]int{{1, 5}, {1, 20}, {2, 25}, {6, 15}, {12, 28}, {11, 30}}[ref.Mod(m*3+d, 6)][0], [][2]int{{1, 5}, {1, 20}, {2, 25}, {6, 15}, {12, 28}, {11, 30}}[ref.Mod(m*3+d, 6)][1]
+					_ = calendar.NewSolarFromYmd(y, pm, pd).GetLunar()
+				}
 				got, msg := accepted(func() { l = calendar.NewLunar(y, m, d, 12, 30, 15) })
 				if got != want {
 					return fmt.Errorf("NewLunar(%d,%d,%d) accepted=%v (%s) but membership in the image of Solar.GetLunar() is %v", y, m, d, got, msg, want)
@@ -565,6 +571,16 @@ func TestC07(t *testing.T) {
 		}
 	}
 	lunarCtor.Rapid(ev.Share(ev.Pick(160, 1600)), func(t *rapid.T) lunarYearCase { return lunarYearCase{gen.Year(t, 1, 9998)} })
+	// short lunar steps from every day of the months of unusual length (the 28-day twelfth month of lunar 236, civil
+	// 0237-01-15..02-11, is the only one below 29 days; reform-era neighbours included)
+	if ev.Shard == 0 {
+		for j := ref.JDN(237, 1, 10); j <= ref.JDN(237, 2, 15); j++ {
+			y, m, d := ref.FromJDN(j)
+			for _, n := range []int{1, 2, 3, -1, 27, 28, 29} {
+				chains.Eval(chainCase{Start: ref.DT{Y: y, M: m, D: d, H: 12}, Ops: []op{{Kind: "LunarNext", N: n}, {Kind: "LunarRoundTrip"}, {Kind: "LunarNext", N: -n}}})
+			}
+		}
+	}
 	chains.Rapid(ev.Share(ev.Pick(8000, 200000)), genChain)
 }
 
